@@ -4,6 +4,7 @@ mod c21_expr;
 mod c33;
 mod c34;
 mod c37;
+mod c37_ds;
 mod c43;
 
 use vcore::{machinery_error, Ctx};
